@@ -727,6 +727,11 @@ def close_pending_has_data(c):
                       z3.And(z3.Length(c.new('_recv_buf')) > 0, c.truthy(c.newv('_recv_paused'))))
 
 
+def on_raise(clause):
+    """the clause, as an `always` entry that speaks about the exceptional exits only"""
+    return lambda c: z3.BoolVal(True) if c.raised is None else clause(c)
+
+
 def recv_step(c):
     """legal moves of the receive side inside a flush: eof_pending -> eof, close_pending -> closed, or none"""
     o, n = c.old('_recv_state'), c.new('_recv_state')
@@ -776,10 +781,15 @@ flush_recv = Spec(
     lemmas=starting_is_truthy,
     modifies=sorted({'_recv_buf', '_recv_window', '_recv_paused', '_recv_state', '_send_state',
                      'ghost_cleanup_sched', 'ghost_eof_told'} | set(CLOSE_MODIFIES)),
-    ensures=[('cleanup-gets-the-error', lambda c: z3.And(*[
+    # the two "stays pending only ..." clauses hold on EVERY exit: on normal return they are `post(...)` obligations,
+    # on the raise paths `always(...)` ones (same clause; separate names so that the recorded finding F-C09-3, which
+    # is about the raise paths of the pinned code, cannot mask a violation on a normal path)
+    ensures=[('close-stays-pending-only-while-data-is-buffered', close_pending_has_data),
+             ('eof-stays-pending-only-behind-undelivered-data', eof_pending_has_reason),
+             ('cleanup-gets-the-error', lambda c: z3.And(*[
                  c.eq(e[1][0], c.argv('exc')) for e in c.events('sched_cleanup')]))],
-    always=[('close-stays-pending-only-while-data-is-buffered', close_pending_has_data),
-            ('eof-stays-pending-only-behind-undelivered-data', eof_pending_has_reason),
+    always=[('close-stays-pending-only-while-data-is-buffered', on_raise(close_pending_has_data)),
+            ('eof-stays-pending-only-behind-undelivered-data', on_raise(eof_pending_has_reason)),
             ('eof-told-exactly-once-when-reached', eof_told_once),
             ('eof-inv', lambda c: chan_eof_inv(c, new=True)),
             ('one-cleanup-per-close', hs_step),
